@@ -140,7 +140,7 @@ fn gen_entry(rng: &mut Rng, subject: K, h: &mut HandleCounts, faults: bool, chea
         Xsdt => Op::new(XAddEntry).a(&[rng.val(64)]),
         Mcfg => Op::new(McAddEcam).a(&[rng.val(64), rng.val(16), rng.val(8), rng.val(8)]),
         Madt => {
-            let kinds = [MaLapic, MaIoApic, MaGicc, MaGicd, MaGicMsi, MaGicr, MaGicIts, MaRintc, MaImsic, MaAplic, MaPlic];
+            let kinds = [MaLapic, MaIoApic, MaGicc, MaGicd, MaGicMsi, MaGicr, MaGicIts, MaRintc, MaImsic, MaAplic, MaPlic, MaRawPair];
             let mut k = if cheap && rng.chance(3, 4) { MaLapic } else { *rng.pick(&kinds) };
             if k == MaImsic {
                 if h.imsic && !(faults && rng.chance(1, 2)) {
@@ -152,6 +152,7 @@ fn gen_entry(rng: &mut Rng, subject: K, h: &mut HandleCounts, faults: bool, chea
             }
             match k {
                 MaLapic => Op::new(k).a(&[rng.val(8), rng.val(8), rng.below(3)]),
+                MaRawPair => Op::new(k).a(&[rng.val(8), rng.val(8), rng.val(8), rng.val(8), rng.below(3), rng.below(3)]),
                 MaIoApic => Op::new(k).a(&[rng.val(8), rng.val(32), rng.val(32)]),
                 MaGicc => {
                     let mut s = Vec::new();
@@ -437,6 +438,65 @@ fn dense(rng: &mut Rng, n: usize) -> Vec<u8> {
     }
 }
 
+/// a copy of `src`: half the time exact, otherwise with one scalar argument redrawn, one option
+/// call dropped, or one option call repeated (sub-element adders are left alone so that the copy
+/// stays well-formed)
+fn near_duplicate(rng: &mut Rng, src: &Op) -> Op {
+    let mut o = src.clone();
+    let is_option = |k: K| {
+        use K::*;
+        matches!(
+            k,
+            OptEnabled | OptHotplug | OptNonVolatile | OptArch | OptProxDomain | PnPhysical | PnValid | PnThread | PnLeaf | PnIdentical | CnNextLevel | CnSize | CnSets | CnAssoc | CnAlloc | CnType
+                | CnPolicy | CnLineSize | CnId | WrType2 | WrType3 | WrVolatile | WrPersistent | WrFixed | LocNonSeq | LocMinTransfer | GcPerfInt | GcMaintInt | GcSet | MsFrameId | MsBase | MsSpi | HeSet
+        )
+    };
+    match rng.below(6) {
+        0..=2 => {}
+        3 if !o.a.is_empty() => {
+            // one constructor argument redrawn (the fault-steering tail arguments 9 and 10 are left alone)
+            let n = o.a.len().min(9);
+            let i = rng.below(n as u64) as usize;
+            o.a[i] = match rng.below(3) {
+                0 => o.a[i].wrapping_add(1),
+                1 => rng.below(8),
+                _ => rng.val(64),
+            };
+        }
+        4 => {
+            let idx: Vec<usize> = o.s.iter().enumerate().filter(|(_, c)| is_option(c.k)).map(|(i, _)| i).collect();
+            if !idx.is_empty() {
+                let i = idx[rng.below(idx.len() as u64) as usize];
+                o.s.remove(i);
+            }
+        }
+        _ => {
+            let idx: Vec<usize> = o.s.iter().enumerate().filter(|(_, c)| is_option(c.k)).map(|(i, _)| i).collect();
+            if !idx.is_empty() {
+                let i = idx[rng.below(idx.len() as u64) as usize];
+                let c = o.s[i].clone();
+                o.s.push(c);
+            }
+        }
+    }
+    o
+}
+
+/// an index that is out of range for a dimension of size n: just past the end, far past it, or an
+/// in-range value with a high bit set (truncating index arithmetic would fold it back in range)
+fn oor_index(rng: &mut Rng, n: u64) -> u64 {
+    let x = if n > 0 { rng.below(n) } else { 0 };
+    match rng.below(8) {
+        0..=2 => n + rng.below(3),
+        3 => n + 255 + rng.below(3),
+        4 => x | 1 << 8 | if n > 256 { 1 << 16 } else { 0 },
+        5 => x | 1 << 16 | if n > 65_536 { 1 << 20 } else { 0 },
+        6 => x | 1 << 32,
+        _ => u64::MAX - rng.below(3),
+    }
+    .max(n)
+}
+
 fn refidx(rng: &mut Rng, n: u64) -> u64 {
     // uniform over all handles minted so far, biased to the first and the most recent
     match rng.below(6) {
@@ -527,7 +587,14 @@ pub fn gen_trace(rng: &mut Rng, cfg: &GenCfg, run: u64) -> Op {
                     ops.push(Op::new(ObsAbort).a(&[rng.next() & 0xff_ffff]));
                     continue;
                 }
-                let op = gen_entry(rng, subject, &mut h, inject, cheap, cfg.oversize);
+                // the same entry again, exactly or with one thing changed: callers re-add identical
+                // descriptions, and slips that merge, de-duplicate or cache by content need two alike
+                let op = if !ops.is_empty() && !cheap && rng.chance(1, 7) {
+                    let src: &Op = &ops[rng.below(ops.len() as u64) as usize];
+                    if src.k == ObsAbort || src.k == MaImsic { gen_entry(rng, subject, &mut h, inject, cheap, cfg.oversize) } else { near_duplicate(rng, src) }
+                } else {
+                    gen_entry(rng, subject, &mut h, inject, cheap, cfg.oversize)
+                };
                 if subject == Viot {
                     // VIOT handles are 16-bit offsets: keep the image below 65536 bytes (beyond is C18's matter)
                     let l = if matches!(op.k, ViPciRange | ViMmioEp) { 24 } else { 16 };
@@ -580,9 +647,9 @@ pub fn gen_trace(rng: &mut Rng, cfg: &GenCfg, run: u64) -> Op {
                         break;
                     }
                     if rng.chance(1, 2) {
-                        a = n + rng.below(3);
+                        a = oor_index(rng, n);
                     } else {
-                        b = n + rng.below(3);
+                        b = oor_index(rng, n);
                     }
                 }
                 r.s.push(Op::new(SlSetDistance).a(&[a, b, rng.val(8)]));
@@ -605,8 +672,8 @@ pub fn gen_trace(rng: &mut Rng, cfg: &GenCfg, run: u64) -> Op {
                 let o = match rng.below(8) {
                     0 => Op::new(LocNonSeq),
                     1 => Op::new(LocMinTransfer),
-                    2 if i > 0 || oor => Op::new(LocSetInit).a(&[if oor { i + rng.below(2) } else { rng.below(i) }, rng.val(32)]),
-                    3 if t > 0 || oor => Op::new(LocSetTarget).a(&[if oor { t + rng.below(2) } else { rng.below(t) }, rng.val(32)]),
+                    2 if i > 0 || oor => Op::new(LocSetInit).a(&[if oor { oor_index(rng, i) } else { rng.below(i) }, rng.val(32)]),
+                    3 if t > 0 || oor => Op::new(LocSetTarget).a(&[if oor { oor_index(rng, t) } else { rng.below(t) }, rng.val(32)]),
                     _ => {
                         if (i == 0 || t == 0) && !oor {
                             continue;
@@ -614,9 +681,9 @@ pub fn gen_trace(rng: &mut Rng, cfg: &GenCfg, run: u64) -> Op {
                         let (mut a, mut b) = (if i > 0 { rng.below(i) } else { 0 }, if t > 0 { rng.below(t) } else { 0 });
                         if oor {
                             if rng.chance(1, 2) {
-                                a = i + rng.below(2)
+                                a = oor_index(rng, i)
                             } else {
-                                b = t + rng.below(2)
+                                b = oor_index(rng, t)
                             }
                         }
                         Op::new(LocSetEntry).a(&[a, b, rng.val(16)])
